@@ -253,7 +253,11 @@ def check_difference(case):
     # the comparison operators see the serial
     sa = rd.serial_exact(a)
     k = int(sa // 1)
-    for f, w in (('v_a>=%d' % k, True), ('v_a<%d' % (k + 1), True), ('v_a<%d' % k, False), ('%d<=v_a' % k, True)):
+    frac = sa != k
+    probes = [('v_a>=%d' % k, True), ('v_a<%d' % (k + 1), True), ('v_a<%d' % k, False), ('%d<=v_a' % k, True),
+              # the number on the left, the date-time on the right: the time of day must still count
+              ('%d<v_a' % k, frac), ('%d=v_a' % k, not frac), ('%d>=v_a' % k, not frac), ('%d>v_a' % (k + 1), True), ('%d<>v_a' % k, frac), ('v_a>%d' % k, frac)]
+    for f, w in probes:
         r = env.parse(f)
         if r['error'] is not None or r['result'] is not w:
             raise Violation('%s with v_a=%s -> %r (serial %r)' % (f, a, r, float(sa)), enc(r['result']), w)
